@@ -106,6 +106,10 @@ def run_tree(case):
     w = build(case["tree"]); out = []
     for o in case["ops"]:
         op, a = o[0], o[1]
+        if op == "set_kp":
+            if isinstance(w, RC.ListRowContainer):
+                w.key_pattern = None if a is None else RC.KeyPattern(pattern=a[0] + "{:d}" + a[1], offset=a[2])
+            continue
         if op == "add_at":
             t = child_at(w, a)
             if t is not None and hasattr(t, "add"): t.add(build(o[2]))
